@@ -267,8 +267,10 @@ def observe(run_real):
     for md in probes():
         r = run_real(md)
         if r["call"] is None:
-            raise RuntimeError(f"probe {md['name']}: PSy generation failed: {r['call_err']}")
-        for (txt, ty, kind, rank) in r["call"]:
+            # the real generator cannot produce the call for a valid probe kernel: the table stays
+            # incomplete and `consistent` false, so the theorems about the table no longer check
+            consistent = False
+        for (txt, ty, kind, rank) in (r["call"] or []):
             a = classify_call(txt, md)
             if call.setdefault(a, (ty, kind, rank)) != (ty, kind, rank):
                 consistent = False
